@@ -16,6 +16,7 @@ import DateutilVerif.Spec.RelativeDelta
 import DateutilVerif.Generated.RDOps
 import DateutilVerif.Model.RDHistory
 import DateutilVerif.Model.RDScale
+import DateutilVerif.Generated.WdOps
 
 namespace Ops.RelativeDelta
 open Wire RDM
@@ -221,6 +222,16 @@ def handleGen (op : String) (args : List String) : Option String :=
       | some [ng, k] => pure (Py.showR showRD (Gen.divPow2 d { neg := ng != 0, k := k.toNat }))
       | _ => none
   | "rdgen.normalized" => (parseRD? args).map (fun d => Py.showR showRD (Gen.normalized d))
+  | "rdgen.ne" => do
+      let a ← parseRD? (args.take 18)
+      let b ← parseRD? (args.drop 18)
+      pure (Py.showR showBool (Gen.ne a b))
+  | "rdgen.repr" => (parseRD? args).map (fun d => Py.showR showHexString (Gen.repr d))
+  | "rdgen.weeks" => (parseRD? args).map (fun d => Py.showR (fun (i : Int) => toString i) (Gen.weeks d))
+  | "rdgen.setweeks" => do
+      let d ← parseRD? (args.take 18)
+      let v ← (args.drop 18).head? >>= parseInt?
+      pure (Py.showR showRD (Gen.setWeeks d v))
   | "rdgen.bool" => (parseRD? args).map (fun d => Py.showR showBool (Gen.bool d))
   | "rdgen.hash" => (parseRD? args).map (fun d => Py.showR showHashList (Gen.hashKey d))
   | "rdgen.eq" => do
@@ -320,6 +331,7 @@ def handle (op : String) (args : List String) : Option String :=
       | some [ng, k] => pure ("ok " ++ showRD (divPow2 d (ng != 0) k.toNat))
       | _ => none
   | "rd.normalized" => (parseRD? args).map (fun d => "ok " ++ showRD (normalizedInt d))
+  | "rd.repr" => (parseRD? args).map (fun d => Py.showR showHexString (RDH.reprOf WdPy.repr d))
   | "rd.weeks" => (parseRD? args).map (fun d => s!"ok {RDH.weeksOf d}")
   | "rd.setweeks" => do
       let d ← parseRD? (args.take 18)
